@@ -282,7 +282,9 @@ func (route *baseRoute) delDestination(index int, extendConfig baseCfgExtender) 
 		return fmt.Errorf("Invalid index %d", index)
 	}
 	conf.Dests()[index].Shutdown()
-	newDests := append(conf.Dests()[:index], conf.Dests()[index+1:]...)
+	// copy on delete: Dispatch may still be iterating over the published slice, so leave its backing array alone
+	newDests := append(conf.Dests()[:0:0], conf.Dests()[:index]...)
+	newDests = append(newDests, conf.Dests()[index+1:]...)
 	newConf := extendConfig(baseConfig{*conf.Matcher(), newDests})
 	route.config.Store(newConf)
 	return nil
